@@ -4,11 +4,54 @@ import json, os
 V = os.path.dirname(os.path.abspath(__file__))
 props = [json.loads(l) for l in open(os.path.join(V, "properties.jsonl"))]
 # property -> (technique, level text, level_note, design_ref)
+TB = 'Trusted: Lean kernel + propext/Classical.choice/Quot.sound (audited per theorem each run); the go/ast extractor and the Skeleton facts it emits; '
 CLAIMED = {
  "C19": ("Lean 4 proof over LTS model M1 (inductive invariants) + regenerated skeleton + trace validation under a controlled scheduler",
          "Theorems (Props/C19.lean) for all reachable states of the broadcaster LTS, any number of threads/keys/contexts and every interleaving: no panic, at most one receiver per published value, no cross-key delivery, publish/receive enabledness once freed/closed/cancelled, justified outcomes, idempotent Free. Tied to the source by facts regenerated from /repo (Tie 1) and by replaying every executed schedule of the real Broadcaster on the model (Tie 2).",
-         "Trusted: Lean kernel + 3 standard axioms; the go/ast extractor and Skeleton facts; Go channel/select/context semantics as modelled; hook placement; the scheduler's settle detection. Not carried by the theorem: Go scheduler fairness.",
+         TB + "Go channel/select/context semantics as modelled; hook placement; the scheduler's settle detection. Not carried by the theorem: Go scheduler fairness.",
          "DESIGN.md 7 C19, A.1"),
+ "C18": ("Lean 4 proof over a structural model of the remote-definition walk + regenerated skeleton + differential run against real reflect",
+         "Theorems (Props/C18.lean) for ALL remote struct shapes (any depth, order, mix): link succeeds iff every function field is valid, the error is the first invalid field's in depth-first order (return shape before arguments), non-function fields are irrelevant, the walk never panics, stub name = dotted path and Go's strings.Split inverts the join. Tie 2: 25 compiled remote types are linked for real in subprocesses, every stub invoked, outcome compared with the model and with an oracle computed from reflect.Type.",
+         TB + "reflect's Set/CanSet/FieldByName behaviour as modelled (validated on the zoo); callee-side lookup is C07's model.",
+         "DESIGN.md 7 C18"),
+ "C17": ("Lean 4 proof over a tree model of frame construction + regenerated skeleton (struct tags, literals) + independent decoding of captured frames",
+         "Theorems (Props/C17.lean) for all calls/arities/return shapes and any serializer: exact request/response/envelope trees, args never null, response carries the request's id, err empty iff nil under the hypothesis message != \"\" (the counterexample for the empty message is proved and is a KNOWN FINDING), foreign frames in any key order / absent or null args are parsed identically. Tie 2: every frame of a covering workload is captured, decoded with an independent generic decoder and compared with the model's rendering, 3 serializer configs x 2 APIs; hand-written foreign frames are answered.",
+         TB + "the serializer is a parameter (decode . encode = id on frames is measured for the shims, not proved).",
+         "DESIGN.md 7 C17, 8 F7"),
+ "C09": ("Lean 4 proof over the wire model (parametric in the serializer) + regenerated skeleton + round-trip differential on the real link",
+         "Theorems (Props/C09.lean) for every arity and any codec: handler argument i = decode(encode(caller argument i)) into the declared type, the context is never transmitted (frame independent of it, length arity-1), result = one round-trip of the handler's value. Tie 2: 12-parameter handler with boundary/zero/nil values under 3 serializer configs x 2 APIs, compared with a direct marshal->unmarshal.",
+         TB + "serializer value semantics are the parameter; arg-count check precedes decoding (C07).",
+         "DESIGN.md 7 C09"),
+ "C10": ("Lean 4 proof over the wire model with Go's unicode.IsSpace table + regenerated skeleton + message differential on the real link",
+         "Theorems (Props/C10.lean) for all message strings: a message with a non-blank character arrives byte-exact (untrimmed) for both return shapes, with the accompanying value; nil stays nil (also after earlier error frames); blank-only messages arrive as nil (outside the property's domain, stated as a fact). Tie 2: isGoSpace checked against unicode.IsSpace on all code points by the wire agent's differential; corner-case and PRNG messages through handlers and closures, both directions, 3 configs x 2 APIs, link must stay alive.",
+         TB + "error identity is compared by message.",
+         "DESIGN.md 7 C10"),
+ "C11": ("Lean 4 proof over a model of convertValue / the closure wrapper + regenerated skeleton + differential against the real convertValue",
+         "Theorems (Props/C11.lean): for all supported value lists (numbers, booleans, strings, slices of those, zero/empty/nil) under JSON and CBOR generic decoding the wrapper runs the function once with exactly those values; convertValue never panics for any source/destination; arity and inconvertible arguments are ordinary errors; value and error are handed back unchanged, result direction total. Tie 2: 685 source x destination pairs through the real convertValue (verif accessor) vs the model; closure workloads (0..5 invocations, concurrent, both directions, 10-parameter typed closure) on the real link. The exactly-once part rests on C01's model.",
+         TB + "reflect.ConvertibleTo/Convert on the modelled classes (bit widths, non-integral floats, []byte outside the model).",
+         "DESIGN.md 7 C11, 8 F3"),
+ "C08": ("Lean 4 proof over an LTS of the stream demultiplexer (refinement to FIFO message delivery) + regenerated skeleton + transcript equality across configurations",
+         "Theorems (Props/C08.lean, C08Live.lean) for every envelope sequence and interleaving: each reader sees exactly the FIFO subsequence of its members, nothing lost/duplicated/invented while the context lives, the decode error arrives after all earlier members and only then, envelopes carry exactly one member, the decoder can always finish (guarded hand-off). Payload opacity is a checked source fact (stPayloadOpaque). Tie 2: seeded workloads replayed under 8 configurations (2 APIs, PRNG stream chunking, 3 serializers): transcripts must be equal.",
+         TB + "parametricity in the payload type is argued from the source fact, not proved as a free theorem.",
+         "DESIGN.md 7 C08"),
+ "C20": ("Lean 4 proof of a lockset theorem over a fragment of the Go memory model, instantiated by `decide` on the access table regenerated from the source; race detector as cross-check",
+         "lockset_race_free: in every well-formed trace whose threads follow a disciplined access table no two conflicting accesses race (mutex rel->acq and close->receive edges); C20_instance: the table extracted from /repo on this run is disciplined. Cross-check: the workloads of nine suites re-run under `go build -race`; a report whose racing access is in panrpc code is a violation.",
+         TB + "completeness of the extractor's enumeration of shared variables; lexical lock sets = dynamic ones; one writer goroutine per close-ordered variable; reflect/runtime internals.",
+         "DESIGN.md 7 C20"),
+}
+PENDING = {
+ "C01": "Lean model M3 (System) in progress",
+ "C02": "Lean model M3 (System) in progress",
+ "C03": "Lean model M2 (Endpoint) in progress",
+ "C04": "Lean model M2 (Endpoint) in progress",
+ "C05": "Lean model M2 (Endpoint) in progress",
+ "C06": "Lean model P1 (Lookup) in progress",
+ "C07": "Lean model P1 (Lookup) in progress",
+ "C12": "Lean model M2 (Endpoint) in progress",
+ "C13": "Lean model M4 (Registry) in progress",
+ "C14": "Lean model M4 (Registry) in progress",
+ "C15": "Lean model M2/M4 in progress",
+ "C16": "Lean model M2 (Endpoint) in progress",
 }
 checks = []
 na = []
@@ -28,7 +71,7 @@ for p in props:
             "technique": tech,
         })
     else:
-        na.append({"property_id": pid, "reason": "not yet built in this round (Lean model and correspondence suite pending); no other technique is substituted"})
+        na.append({"property_id": pid, "reason": "not yet claimed: " + PENDING.get(pid, "pending") + "; the Go correspondence suite exists but no other technique is substituted for the proof"})
 m = {
  "version": 1,
  "setup_cmd": "./setup.sh",
